@@ -71,7 +71,7 @@ CLAIMED['C19'] = {
             '(constructors and k=1 flips are reasoned table entries); helpers that assert hull freshness are called only '
             'behind the typed staleness check; checked integer arithmetic (overflow / division asserts on non-usize integers, '
             'usize subtraction) per function matches a classified table; slice indices that are caller-handle values are '
-            'range-checked first. Decides "no unbounded loop / recursion, no new '
+            'range-checked first; range samplers are reached only behind a finiteness test of the range width. Decides "no unbounded loop / recursion, no new '
             'panic site, non-finite input gated"; not complexity, stack depth or arithmetic asserts.',
     'note': 'Trusted: rustc MIR; finiteness of std/slotmap/smallvec iterators; the LOOP / PANIC / FINITE tables in '
             'engine/rules/c19.py (each entry with a reason). Idiom classifiers: an unrecognised but correct new loop or '
@@ -175,8 +175,9 @@ CLAIMED['C07'] = {
             '(per-cell guard loops checked per iteration); flip contexts are constructed only by the six validated '
             'builders; the 12 Edit-API methods and the kernel layers are clean on failure (C03 engine); every simplex hash '
             'used by the guards is computed over the same canonical (u64-sorted) key sequence at the index builder and at '
-            'every lookup. Decides "no mutation before the guards, no unvalidated context, no trace on failure, guards and '
-            'index agree on keys"; not manifold preservation, counts or invertibility.',
+            'every lookup; the kernel reports success only behind neighbour wiring, removal of the old cells and the '
+            'coherent-orientation normalisation, for every k. Decides "no mutation before the guards, no unvalidated context, no trace on failure, guards and '
+            'index agree on keys, the structural post-steps are never skipped"; not manifold preservation, counts or invertibility.',
     'note': 'Trusted: as for C03; 4 assumed-infeasible exits in the kernel and known finding F2 (2 exits) are shared with C03.',
     'technique': 'must-pass-through (dominance), construction-site enumeration and rollback dataflow over rustc MIR',
     'design': '§5 C07',
